@@ -321,6 +321,42 @@ def h_decimal_literals(eng, path):
         shutil.rmtree(tmp, ignore_errors=True)
 
 
+def h_redefinition_modes(eng, mode):
+    """a second definition of the same name: refused under on_redefinition='raise'; under 'warn'
+    and 'ignore' the later text is what the name means afterwards (never a mixture), and every
+    unit defined from it follows"""
+    import warnings
+
+    a, b, x = eng.real("a"), eng.real("b"), eng.real("x")
+    eng.assume(a > 0)
+    eng.assume(b > 0)
+    eng.assume(Not(Eq(a, b)))
+    L = eng.lit
+    lines = ["m = [length]", "kk- = 1000", f"x = {L(a)} * m = X_ = ex", "y = 3 * x", f"x = {L(b)} * m = X2_", "z = 5 * x"]
+    try:
+        with warnings.catch_warnings():
+            warnings.simplefilter("ignore")
+            ureg = pint.UnitRegistry(lines, non_int_type=eng.ntype, on_redefinition=mode)
+    except RedefinitionError:
+        eng.prove(mode == "raise", f"{mode}:redefinition-refused-only-when-asked")
+        return
+    eng.prove(mode != "raise", f"{mode}:redefinition-must-be-refused")
+    Qy = ureg.Quantity
+    eng.prove(Eq(Qy(x, "x").to("m").magnitude, x * b), f"{mode}:later-definition-wins")
+    eng.prove(Eq(Qy(x, "z").to("m").magnitude, x * 5 * b), f"{mode}:units-defined-after-follow")
+    eng.prove(Eq(Qy(x, "y").to("m").magnitude, x * 3 * b), f"{mode}:units-defined-before-follow")
+    eng.prove(Eq(Qy(x, "kkx").to("m").magnitude, x * 1000 * b), f"{mode}:prefixed-follows")
+    eng.prove(ureg.get_symbol("x") == "X2_" and ureg.get_name("X2_") == "x", f"{mode}:symbol-of-the-later-definition")
+    # (spellings of the earlier definition: 'X_' and 'ex' -- whatever they resolve to must be the
+    # later meaning or be undefined, never the earlier factor)
+    for old in ("X_", "ex"):
+        try:
+            v = Qy(x, old).to("m").magnitude
+        except UndefinedUnitError:
+            continue
+        eng.prove(Eq(v, x * b), f"{mode}:earlier-spelling-has-no-stale-meaning:{old}")
+
+
 def h_random_dag(eng, k):
     """a seeded random definition file: base units, a DAG of derived units with symbolic scales and
     small integer exponents over earlier units, aliases, symbols ('_' placeholders), two prefixes,
@@ -497,6 +533,8 @@ def cases(tier, seed):
         out.append(Case("H10.c", path, M, "h_loading_paths", {"path": path}, opts=opts, validate=1 if path in ("file", "load_definitions") else 0, weight=6.0))
     for kind in ILL_FORMED:
         out.append(Case("H10.e", kind, M, "h_ill_formed", {"kind": kind}, opts=opts, validate=1))
+    for mode in ("raise", "warn", "ignore"):
+        out.append(Case("H10.e", f"redefinition-mode:{mode}", M, "h_redefinition_modes", {"mode": mode}, opts=opts, validate=1))
     for path in ("lines", "file", "load_definitions"):
         out.append(Case("H10.a", f"decimal-literals:{path}", M, "h_decimal_literals", {"path": path}, opts=opts, validate=1))
     for k in range(400 if big else 24):
